@@ -38,6 +38,7 @@ type letterRec struct {
 	Code int    `json:"code"`
 }
 
+var hvRe = regexp.MustCompile(`^hv([0-9]{1,2})$`)
 var statusRe = regexp.MustCompile(`^s([0-9]{3})$`)
 var codeRe = regexp.MustCompile(`^c([0-9]{1,2})$`)
 
@@ -52,7 +53,63 @@ func letterOf(s string) letterRec {
 		fmt.Sscanf(m[1], "%d", &n)
 		return letterRec{"code", n}
 	}
+	if m := hvRe.FindStringSubmatch(s); m != nil {
+		n := 0
+		fmt.Sscanf(m[1], "%d", &n)
+		return letterRec{"hv", n}
+	}
 	return letterRec{s, 200}
+}
+
+// one enumerated var/header modifier case: what was configured and what step b then echoed to the target
+type modCase struct {
+	Kind  string `json:"kind"` // substr | mod
+	Spec  string `json:"spec"`
+	A     int    `json:"a"`
+	B     int    `json:"b"`
+	HasB  bool   `json:"hasb"`
+	Seen  bool   `json:"seen"`
+	Start int    `json:"start"` // position of the echoed value in the header value's alphabet (-1: not a substring)
+	Len   int    `json:"len"`
+	Got   string `json:"got"`
+}
+
+// substrCases renders SubstrCases(n) of spec/Responses.tla, plus a few chains of the other modifiers
+func substrCases(n int) []modCase {
+	set := map[int]bool{}
+	var bounds []int
+	for _, v := range []int{-n - 7, -n - 1, -n, -1, 0, 1, n - 1, n, n + 1, n + 7} {
+		if !set[v] {
+			set[v] = true
+			bounds = append(bounds, v)
+		}
+	}
+	var out []modCase
+	for _, a := range bounds {
+		out = append(out, modCase{Kind: "substr", Spec: fmt.Sprintf("X-Tok|substr(%d)", a), A: a, B: 0, HasB: false})
+		for _, b := range bounds {
+			out = append(out, modCase{Kind: "substr", Spec: fmt.Sprintf("X-Tok|substr(%d,%d)", a, b), A: a, B: b, HasB: true})
+		}
+	}
+	for _, m := range []string{"X-Tok|lower", "X-Tok|upper", "X-Tok|replace(b,)", "X-Tok|replace(,x)", "X-Tok|lower|substr(-1)",
+		"X-Tok|upper|replace(A,)|substr(1,2)", "X-Tok|replace(abc,)|substr(1)", "X-Tok|replace(a,aaaa)|substr(-2,-9)"} {
+		out = append(out, modCase{Kind: "mod", Spec: m})
+	}
+	return out
+}
+
+func substrPayload(prefix string, n int, cases []modCase) string {
+	var b strings.Builder
+	b.WriteString("requests:\n")
+	for i, c := range cases {
+		fmt.Fprintf(&b, "  - name: a%d\n    method: GET\n    uri: /a\n    headers:\n      X-Letter: hv%d\n    postprocessors:\n      - type: var/header\n        mapping:\n          tok: '%s'\n", i, n, c.Spec)
+		fmt.Fprintf(&b, "  - name: b%d\n    method: GET\n    uri: /b\n    headers:\n      X-Letter: hv%d\n      X-Case: %s%d\n      X-Val: '[{{.request.a%d.postprocessor.tok}}]'\n", i, n, prefix, i, i)
+	}
+	b.WriteString("scenarios:\n")
+	for i := range cases {
+		fmt.Fprintf(&b, "  - name: m%d_hv%d\n    weight: 1\n    requests: [a%d, b%d]\n", i, n, i, i)
+	}
+	return b.String()
 }
 
 type respSample struct {
@@ -84,6 +141,9 @@ type respRun struct {
 	Mix      bool         `json:"mix"`
 	WallMs   int          `json:"wall_ms"` // informational
 	Retried  bool         `json:"retried"` // the run hit the driver's time limit once and was repeated alone
+	Kind     string       `json:"kind"`    // letters | substr (enumerated var/header modifier bounds)
+	Vlen     int          `json:"vlen"`    // substr runs: length of the header value
+	Cases    []modCase    `json:"cases"`
 }
 
 var httpStatus = []string{"s200", "s201", "s204", "s299", "s301", "s304", "s400", "s404", "s418", "s429", "s500", "s503", "s599"}
@@ -159,6 +219,7 @@ func grpcAmmo(letters []string) string {
 }
 
 type respPlan struct {
+	sub     int // n+1: the enumerated substr bounds against a header value of n bytes (one instance); 0: not such a run
 	debug   bool
 	gun     string
 	posts   string
@@ -213,6 +274,10 @@ func planAll(mixes int, rnd *rand.Rand, h2 bool) []respPlan {
 	for _, l := range []string{"c0", "c5", "c14", "gtoobig"} {
 		plans = append(plans, respPlan{gun: "grpc", posts: "none", letters: repeat(l, shots), debug: true})
 		plans = append(plans, respPlan{gun: "grpc/scenario", posts: "none", letters: repeat(l, shots), debug: true})
+	}
+	// var/header modifiers: every enumerated (a, b) of SubstrCases(n) against header values of n bytes
+	for _, n := range []int{0, 1, 2, 3, 5, 12} {
+		plans = append(plans, respPlan{gun: "http/scenario", posts: "header_substr", letters: repeat(fmt.Sprintf("hv%d", n), shots), sub: n + 1})
 	}
 	for c := 0; c <= 16; c++ {
 		plans = append(plans, respPlan{gun: "grpc", posts: "none", letters: repeat(fmt.Sprintf("c%d", c), shots)})
@@ -317,7 +382,15 @@ func (t *respTargets) close() {
 
 func runPlan(idx int, p respPlan, t *respTargets, root string) respRun {
 	res := respRun{Run: idx, Gun: p.gun, Posts: p.posts, Shots: shots, Inst: 2, AmmoS: p.letters, Fatal: p.fatal, Mix: p.mix,
-		Samples: []respSample{}, Variant: "plain"}
+		Samples: []respSample{}, Variant: "plain", Kind: "letters", Cases: []modCase{}}
+	casePrefix := fmt.Sprintf("r%d_", idx)
+	if p.sub > 0 {
+		res.Kind, res.Vlen, res.Inst = "substr", p.sub-1, 1
+		res.Cases = substrCases(res.Vlen)
+		res.Shots = len(res.Cases)
+		p.letters = repeat(fmt.Sprintf("hv%d", res.Vlen), res.Shots)
+		res.AmmoS = p.letters
+	}
 	if p.debug {
 		res.Variant = "debug"
 	}
@@ -354,6 +427,9 @@ func runPlan(idx int, p respPlan, t *respTargets, root string) respRun {
 		}
 		if strings.HasSuffix(p.gun, "/scenario") {
 			ammoType, file, text = "http/scenario", filepath.Join(dir, "payload.yaml"), httpScenarioPayload(p.letters, p.posts)
+			if p.sub > 0 {
+				text = substrPayload(casePrefix, res.Vlen, res.Cases)
+			}
 		} else {
 			ammoType, file, text = "uri", filepath.Join(dir, "ammo.uri"), uriAmmo(p.letters)
 		}
@@ -381,7 +457,7 @@ func runPlan(idx int, p respPlan, t *respTargets, root string) respRun {
 	if err := os.WriteFile(file, []byte(text), 0o644); err != nil {
 		panic(err)
 	}
-	conf, err := buildEngineConf(poolYAML(fmt.Sprintf("r%d", idx), p.gun, ammoType, file, target, shots, 2, extra), idx%2 == 1)
+	conf, err := buildEngineConf(poolYAML(fmt.Sprintf("r%d", idx), p.gun, ammoType, file, target, res.Shots, res.Inst, extra), idx%2 == 1)
 	if err != nil {
 		res.BuildErr = err.Error()
 		return res
@@ -396,6 +472,19 @@ func runPlan(idx int, p respPlan, t *respTargets, root string) respRun {
 	res.WallMs = int(time.Since(t0) / time.Millisecond)
 	res.Fired, res.Answered = int(m.Request.Get()), int(m.Response.Get())
 	res.Seen = int(seen() - seenBefore)
+	if p.sub > 0 {
+		got := t.raw.Echoed(casePrefix)
+		for i := range res.Cases {
+			v, ok := got[fmt.Sprint(i)]
+			c := &res.Cases[i]
+			c.Seen, c.Got, c.Start, c.Len = ok, v, -1, -1
+			if ok && strings.HasPrefix(v, "[") && strings.HasSuffix(v, "]") {
+				inner := v[1 : len(v)-1]
+				c.Len = len(inner)
+				c.Start = strings.Index(scentarget.HvAlphabet, inner)
+			}
+		}
+	}
 	for _, s := range agg.Samples() {
 		rs := respSample{Proto: s.Proto, Err: s.Err, Empty: s.Empty, Tags: s.Tags, ErrS: s.ErrS}
 		first := strings.Split(s.Tags, "|")[0]
